@@ -38,30 +38,38 @@ PARTIAL = [
 
 # ------------------------------------------------------------------ translator tie (IndelMap integer / array kernel)
 
-TRANSLATOR = "harness/translators/indelmap.py"
+TRANSLATOR = "harness/translators/indelmap.py + harness/translators/featuremap.py"
 MODEL_TARGETS = ["theories/Model/IndelMapRun.vo", "theories/Model/FeatureMapRun.vo"]
-EQ_FILES = ["IndelMapGenEq.v", "IndelMapGenMergeEq.v", "IndelMapGenLoopEq.v", "IndelMapGenCoordsEq.v"]
+EQ_FILES = ["IndelMapGenEq.v", "IndelMapGenMergeEq.v", "IndelMapGenLoopEq.v", "IndelMapGenCoordsEq.v", "IndelMapGenJoinEq.v", "FeatureMapGenEq.v"]
+
+
+TRANSLATORS = [  # (script, generated file, last line of a complete output)
+    ("harness/translators/indelmap.py", "IndelMapGen", "End G."),
+    ("harness/translators/featuremap.py", "FeatureMapGen", "End GF."),
+]
 
 
 def run_translator():
-    """regenerate gen/IndelMapGen.v from the current source text; returns (error string or None, records)"""
+    """regenerate gen/IndelMapGen.v and gen/FeatureMapGen.v from the current source text; returns (error string or None, records)"""
     core.GEN.mkdir(exist_ok=True)
-    rec = core.GEN / "IndelMapGen.records.json"
-    if rec.exists():
-        rec.unlink()
-    r = subprocess.run([core.PY, str(core.VERIF / TRANSLATOR), "--repo", str(core.REPO), "--records", str(rec)],
-                       capture_output=True, text=True, env=core.impl_env(), cwd=str(core.VERIF))
-    out = core.GEN / "IndelMapGen.v"
-    if r.returncode != 0:
-        return (r.stderr or r.stdout).strip()[-800:] or f"translator exited with {r.returncode}", []
-    if not r.stdout.rstrip().endswith("End G."):
-        return "translator produced truncated output", []
-    if not out.exists() or out.read_text() != r.stdout:
-        out.write_text(r.stdout)
-    try:
-        records = json.loads(rec.read_text())
-    except (OSError, ValueError) as e:
-        return f"translator wrote no function records: {e}", []
+    records = []
+    for script, stem, last in TRANSLATORS:
+        rec = core.GEN / f"{stem}.records.json"
+        if rec.exists():
+            rec.unlink()
+        r = subprocess.run([core.PY, str(core.VERIF / script), "--repo", str(core.REPO), "--records", str(rec)],
+                           capture_output=True, text=True, env=core.impl_env(), cwd=str(core.VERIF))
+        out = core.GEN / f"{stem}.v"
+        if r.returncode != 0:
+            return f"{script}: " + ((r.stderr or r.stdout).strip()[-800:] or f"translator exited with {r.returncode}"), []
+        if not r.stdout.rstrip().endswith(last):
+            return f"{script}: translator produced truncated output", []
+        if not out.exists() or out.read_text() != r.stdout:
+            out.write_text(r.stdout)
+        try:
+            records += json.loads(rec.read_text())
+        except (OSError, ValueError) as e:
+            return f"{script}: translator wrote no function records: {e}", []
     return None, records
 
 
@@ -73,7 +81,7 @@ def pre_build():
 
 def explain_tie_break(problem):
     """a build failure inside IndelMapGenEq.v / IndelMapGen.v is a broken translator tie: name the lemma / generated function"""
-    m = re.search(r"(Proofs/IndelMapGen\w*\.v|gen/IndelMapGen\.v):(\d+)", problem)
+    m = re.search(r"(Proofs/(?:IndelMap|FeatureMap)Gen\w*\.v|gen/(?:IndelMap|FeatureMap)Gen\.v):(\d+)", problem)
     if not m:
         return problem
     path = core.COQ / ("theories/" + m.group(1) if m.group(1).startswith("Proofs") else m.group(1))
@@ -108,12 +116,14 @@ def tie_report(terr, records, pr):
     else:
         status = "ok"
     return dict(
-        status=status, translator=TRANSLATOR, generated="coq/gen/IndelMapGen.v (module G)",
-        equality_file="coq/theories/Proofs/IndelMapGen{Eq,MergeEq,LoopEq,CoordsEq}.v", equality_with_model_proved=proved,
+        status=status, translator=TRANSLATOR, generated="coq/gen/IndelMapGen.v (module G), coq/gen/FeatureMapGen.v (module GF)",
+        equality_file="coq/theories/Proofs/IndelMapGen{Eq,MergeEq,LoopEq,CoordsEq,JoinEq}.v, FeatureMapGenEq.v", equality_with_model_proved=proved,
         equality_lemmas=lemmas if proved else [], transported_theorems=gen_thms if proved else [],
         functions=records,
-        not_translated=["joined_segments", "from_aligned_segments", "from_spans", "gap_coords_to_map", "make_seq_feature_map",
-                        "Sequence.parse_out_gaps", "FeatureMap / Span (all): __getitem__, remap_with, covered, inverse, shadow, nucleic_reversed"],
+        not_translated=["IndelMap.from_spans / spans_to_gap_coords", "make_seq_feature_map", "to_rich_dict / from_rich_dict",
+                        "Sequence.parse_out_gaps", "FeatureMap.__getitem__ / Span.remap_with / Span.__getitem__ (bisect + in-place "
+                        "surgery on lists of span objects)", "FeatureMap.covered (its sweep puts an Optional start into the emitted "
+                        "pairs)", "FeatureMap.__mul__, __add__, without_gaps, get_coordinates, get_gap_coordinates, zeroed"],
         reading="Python int / numpy integer = Z; numpy arrays and Python lists = list Z (which of the two is tracked, `+` differs); "
                 "a[i] = the total read pyget (negative wrap, 0 out of range) and a[i:j] with non-literal bounds = zslice (bounds >= 0), "
                 "as in Model/IndelMap.v; searchsorted = first index with element >= v (> v); falling off the end = Err E_None; "
@@ -1083,7 +1093,7 @@ def run(tier: str, seed: int) -> int:
             # the source left the translatable fragment: no proof obligation counts as discharged, the tie is reported broken
             # and the decision falls to the (widened) behavioural correspondence below
             pr = {"obligations": len(core.property_theorems(PROP)), "discharged": 0, "theorems": {},
-                  "problems": ["translator tie broken: indelmap.py failed closed: " + terr]}
+                  "problems": ["translator tie broken: translator failed closed: " + terr]}
         if pr["problems"]:
             core.make(MODEL_TARGETS)      # the models do not depend on the generated file: keep them runnable
             pr["problems"] = [explain_tie_break(x) for x in pr["problems"]]
